@@ -5,7 +5,7 @@
    down-sampling, the two-level reduction, and the group-id functions that search / split those strings.
    [rmatch] is the regular-expression engine (Go regexp), an arbitrary function. *)
 From SigM Require Import Base Promql.
-From SigP Require Import BaseProofs PromqlProofs.
+From SigP Require Import BaseProofs PromqlProofs PromqlNestProofs.
 From Coq Require Import QArith Permutation.
 Open Scope N_scope.
 
@@ -276,3 +276,138 @@ Print Assumptions C09_prefix_arith_missing_sample_refuted.
 Example C09_fixed_arith_no_sample_without_right :
   map (fun e => map fst (snd e)) (run_arith (fun _ _ => false) BMul (QSel w_m []) (QSel w_n []) w_db2) = [[10%Z]].
 Proof. exact fixed_arith_no_sample_without_right. Qed.
+
+(* ---------- nested aggregations  fn2 g2 (fn1 g1 (name{ms}))  ----------
+   The parser walks the expression outer aggregation first; every AggregateExpr updates the one shared
+   MetricsQuery (flags, key=* filters, head of the aggregation chain).  [agg_step] / [vs_step] are
+   handleAggregateExpr / handleVectorSelector as a state machine; for one layer they are the definitions
+   [flags] / [query_filters] all the theorems above are about. *)
+Theorem C09_parser_steps_one_layer : forall q,
+  flags q = vs_step (one_layer_state q) /\ query_filters q = map fst (p_tfs (one_layer_state q)).
+Proof. intros q. split; [apply flags_are_steps | apply filters_are_steps]. Qed.
+Print Assumptions C09_parser_steps_one_layer.
+
+(* one layer = the generic tag search + first aggregation layer the nested model is built from *)
+Theorem C09_one_layer_is_layer1 : forall (rmatch : str -> str -> bool) q db,
+  tracked rmatch q db = tracked_with rmatch (fst (flags q)) (snd (flags q)) (query_filters q) (q_name q) db /\
+  run_query rmatch q db =
+  layer1 (q_name q) (fst (fst (first_agg q))) (snd (fst (first_agg q))) (snd (first_agg q)) db (tracked rmatch q db).
+Proof. intros rmatch q db. split; [apply tracked_is_tracked_with | apply run_query_is_layer1]. Qed.
+Print Assumptions C09_one_layer_is_layer1.
+
+(* ReorderTagFilters for ANY filter list, duplicates included (two grouping clauses naming one label give two
+   key=* filters): after the stable sort by key the value filters are the first value filter of every key,
+   the key=* filters the first key=* filter of every key without a value filter. *)
+Theorem C09_reorder_spec : forall tfs,
+  reorder tfs =
+  (dedup_key (filter nonstar (sort_by_key tfs)),
+   filter (not_in (dedup_key (filter nonstar (sort_by_key tfs)))) (dedup_key (filter f_is_star (sort_by_key tfs)))).
+Proof. exact reorder_spec. Qed.
+Print Assumptions C09_reorder_spec.
+
+(* "numValueFilters > 0" (the flag that stops BulkAddStar from adding series) holds exactly when some filter of
+   the query is not a key=* filter: dropped duplicates do not count *)
+Theorem C09_reorder_no_value_filter_iff : forall tfs,
+  fst (reorder tfs) = [] <-> forallb f_is_star tfs = true.
+Proof. exact reorder_no_value_filter_iff. Qed.
+Print Assumptions C09_reorder_no_value_filter_iff.
+
+(* FULL STATEMENT (property text, selector part) for a nested aggregation: it reads exactly the series that
+   satisfy all matchers.  Guard [nest_guard] = the selector's guard + every series of the metric carries the
+   labels named in the two grouping clauses (absent labels: known class agg_by_absent_label) + not the
+   "fn (fn (m))" mode whose ids carry no labels.  NOT assumed: that the two clauses name different labels, or
+   labels different from the matched ones — repeated labels are the point. *)
+Theorem C09_nest_select_exact_guarded : forall (rmatch : str -> str -> bool) q db,
+  nest_guard q db = true ->
+  forall i s, nth_error db i = Some s ->
+    (tr_mem i (tracked_nest rmatch q db) = true <-> spec_selected rmatch (n_name q) (n_ms q) s = true).
+Proof. exact nest_select_exact_guarded. Qed.
+Print Assumptions C09_nest_select_exact_guarded.
+
+Theorem C09_nest_reads_the_selector : forall (rmatch : str -> str -> bool) q db,
+  nest_guard q db = true ->
+  forall i s, nth_error db i = Some s ->
+    tr_mem i (tracked_nest rmatch q db) = tr_mem i (tracked rmatch (QSel (n_name q) (n_ms q)) db).
+Proof. exact nest_reads_the_selector. Qed.
+Print Assumptions C09_nest_reads_the_selector.
+
+Example C09_nest_guard_nonvacuous : nest_guard w_nq w_db3 = true.
+Proof. exact nest_guard_nonvacuous. Qed.
+
+(* sum by (a) (max by (a, b) (m)): filters a=*, a=*, b=* ; kept a=*, b=* ; no value filter; PromQL answer *)
+Example C09_nest_repeated_label_witness :
+  let rm := fun _ _ : str => false in
+  map f_key (nest_filters w_nq) = [w_a; w_a; w_b] /\
+  fst (reorder (nest_filters w_nq)) = [] /\
+  map f_key (snd (reorder (nest_filters w_nq))) = [w_a; w_b] /\
+  run_nest rm w_nq w_db3 = [([109; 123; 97; 58; 120], [(10%Z, 180%Q)]); ([109; 123; 97; 58; 121], [(10%Z, 180%Q)])].
+Proof. exact nest_repeated_label_witness. Qed.
+
+(* nesting = the outer aggregation applied to the RESULT of the layer below: per output group and timestamp,
+   the aggregate of the samples of the member series of that result (for any lower-layer result r1) *)
+Theorem C09_nest_outer_is_group_fold : forall name fn fields wo r1 gid t,
+  fn <> ACount ->
+  layer2_at name fn fields wo r1 gid t =
+  match flat_map (fun e => sample_at t (snd e)) (layer2_members fields wo r1 gid) with
+  | [] => None
+  | vs => Some (reduce_q fn vs)
+  end.
+Proof. exact layer2_is_group_fold. Qed.
+Print Assumptions C09_nest_outer_is_group_fold.
+
+Theorem C09_nest_outer_count_is_members : forall name fields wo r1 gid t,
+  fields <> [] ->
+  layer2_at name ACount fields wo r1 gid t =
+  match flat_map (fun e => sample_at t (snd e)) (layer2_members fields wo r1 gid) with
+  | [] => None
+  | vs => Some (inject_Z (Z.of_nat (length vs)))
+  end.
+Proof. exact layer2_count_is_members. Qed.
+Print Assumptions C09_nest_outer_count_is_members.
+
+(* what reduce_q computes: the sum; a member that bounds all members from below / above *)
+Theorem C09_nest_outer_sum_min_max : forall vs,
+  (reduce_q ASum vs == qsum vs)%Q /\
+  (vs <> [] -> In (reduce_q AMin vs) vs /\ forall x, In x vs -> (reduce_q AMin vs <= x)%Q) /\
+  (vs <> [] -> In (reduce_q AMax vs) vs /\ forall x, In x vs -> (x <= reduce_q AMax vs)%Q).
+Proof.
+  intros vs. split; [apply layer2_sum_spec|]. split; intros H; [apply qmin_list_spec | apply qmax_list_spec]; exact H.
+Qed.
+Print Assumptions C09_nest_outer_sum_min_max.
+
+Theorem C09_nest_outer_avg_eq_sum_div_count : forall name fields wo r1 gid t a,
+  fields <> [] ->
+  layer2_at name AAvg fields wo r1 gid t = Some a ->
+  exists s c, layer2_at name ASum fields wo r1 gid t = Some s /\
+              layer2_at name ACount fields wo r1 gid t = Some c /\ (0 < c)%Q /\ (a == s / c)%Q.
+Proof. exact layer2_avg_eq_sum_div_count. Qed.
+Print Assumptions C09_nest_outer_avg_eq_sum_div_count.
+
+Theorem C09_nest_outer_min_le_avg_le_max : forall name fields wo r1 gid t mn av mx,
+  layer2_at name AMin fields wo r1 gid t = Some mn ->
+  layer2_at name AAvg fields wo r1 gid t = Some av ->
+  layer2_at name AMax fields wo r1 gid t = Some mx ->
+  (mn <= av <= mx)%Q.
+Proof. exact layer2_min_le_avg_le_max. Qed.
+Print Assumptions C09_nest_outer_min_le_avg_le_max.
+
+(* the outer layer cuts its group key out of the inner layer's OUTPUT id (name{k:v,k:v — no trailing comma) with the
+   same substring search; exact under the same guard, and two nested by-clauses compose: the outer clause keeps
+   exactly those of its labels that the inner clause kept *)
+Theorem C09_nest_group_key_from_inner_output : forall name ls f,
+  extract_guard name ls f = true -> extract_field (by_id name ls) f = lookup f ls.
+Proof. exact group_key_extraction_from_by_id. Qed.
+Print Assumptions C09_nest_group_key_from_inner_output.
+
+Theorem C09_nest_by_of_by_composition : forall name ls L1 L2, L1 <> [] -> L2 <> [] ->
+  forallb (extract_guard name ls) L1 = true ->
+  forallb (extract_guard name (by_labels ls L1)) L2 = true ->
+  agg_series_id (agg_series_id (render_id name ls) L1 false) L2 false =
+  by_id name (by_labels ls (filter (fun f => mem_str f L1) L2)).
+Proof. exact by_of_by_composition. Qed.
+Print Assumptions C09_nest_by_of_by_composition.
+
+Example C09_nest_by_of_by_nonvacuous :
+  extract_guard w_m (by_labels [(w_a, [120]); (w_b, [49])] [w_a; w_b]) w_a = true /\
+  agg_series_id (agg_series_id (render_id w_m [(w_a, [120]); (w_b, [49])]) [w_a; w_b] false) [w_a] false = [109; 123; 97; 58; 120].
+Proof. exact extract_guard_by_id_nonvacuous. Qed.
